@@ -46,9 +46,9 @@ ExplainedUpload(r) ==
     IF r.sent
     THEN IF r.sem = "c01" THEN C01BodyOK(cfg, files, r.w, r.x, progs, data)
                           ELSE BodyOK(Approved5, cfg, files, r.w, r.x, progs, data)
-    ELSE (* nothing was posted for this week: fine when X fails the sampling   *)
-         (* rate or when there is nothing to send                              *)
-         \/ ~Sampled(cfg, r.x)
+    ELSE (* nothing was posted for this week: fine when the sampling rate may   *)
+         (* have dropped the report or when there is nothing to send           *)
+         \/ ~MustSend(cfg, r.x, D)
          \/ UploadReport5(cfg, files, r.w, r.x) = {}
          \/ (r.sem = "c01" /\ UploadReport3(cfg, files, r.w, r.x) = {})
 ExplainedLocal(r) == ToData(r.data) = LocalReport(ToFiles(r.files), r.w)
